@@ -189,7 +189,7 @@ def job_nodeid(job):
         x = ctx.int('temp', 0, 0x03FFFFFF)
         ctx.assume(x.e >= init.e)
         al._temp = x
-        with symx.shims(sbi):
+        with symx.shims():
             r = al.alloc()
         lo, hi = u << 26, (u + 1) << 26
         data = {'key': 'nodeid', 'replay': {'mode': 'none', 'kind': 'nodeid', 'user': u,
